@@ -12,6 +12,7 @@ mod jsonleg;
 mod prng;
 mod serleg;
 mod simformat;
+mod sweep;
 mod tomlleg;
 mod values;
 
@@ -130,6 +131,8 @@ impl KnownFindings {
 #[derive(Default)]
 struct BatchStats {
     runs: u64,
+    sweep_values: u64,
+    sweep_cases: u64,
     legs: u64,
     legs_faulted: u64,
     legs_fault_free: u64,
@@ -152,6 +155,8 @@ struct BatchStats {
 impl BatchStats {
     fn merge(&mut self, o: BatchStats) {
         self.runs += o.runs;
+        self.sweep_values += o.sweep_values;
+        self.sweep_cases += o.sweep_cases;
         self.legs += o.legs;
         self.legs_faulted += o.legs_faulted;
         self.legs_fault_free += o.legs_fault_free;
@@ -196,8 +201,12 @@ impl BatchStats {
     }
 }
 
-fn run_one(base: u64, index: u64, known: &KnownFindings, st: &mut BatchStats, stop_after: &AtomicU64) {
-    let (val, cases) = generate_run(base, index, &mut st.gen);
+fn run_one(base: u64, index: u64, known: &KnownFindings, st: &mut BatchStats, stop_after: &AtomicU64, sweep: bool) {
+    let (val, cases) = if sweep { sweep::sweep_cases(base, index, &mut st.gen) } else { generate_run(base, index, &mut st.gen) };
+    if sweep {
+        st.sweep_values += 1;
+        st.sweep_cases += cases.len() as u64;
+    }
     st.runs += 1;
     st.vclass[val.class as usize] += 1;
     let mut run_hash = Hash64::default();
@@ -220,7 +229,7 @@ fn run_one(base: u64, index: u64, known: &KnownFindings, st: &mut BatchStats, st
         st.faults_fired.merge(&rep.faults_fired);
         run_hash.u64(rep.log.finish());
         run_hash.u64(rep.violations.len() as u64);
-        if index < 4096 {
+        if index < 4096 && !sweep {
             let key = (leg, rep.faulted && !rep.faults_fired.0.is_empty());
             if st.samples.get(&key).map(|(i, _)| index < *i).unwrap_or(true) {
                 st.samples.insert(
@@ -266,6 +275,10 @@ fn run_one(base: u64, index: u64, known: &KnownFindings, st: &mut BatchStats, st
 }
 
 fn run_batch(base: u64, runs: u64, workers: usize, known: &KnownFindings) -> BatchStats {
+    run_batch_kind(base, runs, workers, known, false)
+}
+
+fn run_batch_kind(base: u64, runs: u64, workers: usize, known: &KnownFindings, sweep: bool) -> BatchStats {
     let stop_after = Arc::new(AtomicU64::new(u64::MAX));
     let known = Arc::new(known.clone());
     let mut handles = Vec::new();
@@ -282,7 +295,7 @@ fn run_batch(base: u64, runs: u64, workers: usize, known: &KnownFindings) -> Bat
                         if i > stop_after.load(Ordering::Relaxed) {
                             break;
                         }
-                        run_one(base, i, &known, &mut st, &stop_after);
+                        run_one(base, i, &known, &mut st, &stop_after, sweep);
                         i += workers as u64;
                     }
                     st
@@ -292,7 +305,13 @@ fn run_batch(base: u64, runs: u64, workers: usize, known: &KnownFindings) -> Bat
     }
     let mut total = BatchStats::default();
     for h in handles {
-        total.merge(h.join().expect("worker panicked outside a guarded region"));
+        match h.join() {
+            Ok(st) => total.merge(st),
+            Err(_) => {
+                eprintln!("HARNESS ERROR: a simulator worker panicked outside a guarded region (see message above)");
+                std::process::exit(2);
+            }
+        }
     }
     total
 }
@@ -564,6 +583,11 @@ fn write_evidence(
             "rule": "One evaluation = one simulated run: a reference-valid (hi, lo) value drawn from the seeded generator (classes below) and driven through five legs — formatting into a faulty fmt::Write sink; Serialize into a faulty simulated serializer plus read-back of the emitted record as seq / map / reversed map; Deserialize from a storage-damaged record through a faulty simulated deserializer; serde_json writer over a faulty io::Write; serde_json reader over damaged bytes and a faulty io::Read. distinct_nontrivial = number of distinct abstract seam traces among legs that ran under at least one planned fault: hash of (leg, sequence of seam call kinds, per-call result kind, chunk-length class / slot type / key kind, fault kind, outcome class) with concrete values abstracted away. Fault-free legs (about 35 %) are excluded from that count and reported separately.",
             "samples": samples,
             "simulated_runs": st.runs,
+            "systematic_fault_position_sweep": {
+                "note": "thorough tier only: for each of `values` generator-drawn values, every single-fault position is enumerated (each sink chunk and capacity, each serializer call site, each access call of each presentation of the intact and of ~30 singly-damaged records, each JSON writer call, each truncation length / read-failure offset / early-EOF offset of the stored JSON, each truncation length of the stored TOML); these cases are included in legs_executed",
+                "values": st.sweep_values,
+                "cases": st.sweep_cases
+            },
             "legs_executed": st.legs,
             "legs_under_planned_faults": st.legs_faulted,
             "legs_fault_free": st.legs_fault_free,
@@ -642,6 +666,7 @@ struct Args {
     seed: u64,
     runs: Option<u64>,
     seeds: Option<u64>,
+    sweep: Option<u64>,
     workers: usize,
     replay: Option<PathBuf>,
     selftest: bool,
@@ -661,6 +686,7 @@ fn parse_args() -> Result<Args, String> {
         },
         runs: None,
         seeds: None,
+        sweep: None,
         workers: std::thread::available_parallelism().map(|n| n.get()).unwrap_or(4).min(16),
         replay: None,
         selftest: false,
@@ -678,6 +704,7 @@ fn parse_args() -> Result<Args, String> {
             "--seed" => a.seed = val("--seed")?.parse().map_err(|e| format!("--seed: {e}"))?,
             "--runs" => a.runs = Some(val("--runs")?.parse().map_err(|e| format!("--runs: {e}"))?),
             "--seeds" => a.seeds = Some(val("--seeds")?.parse().map_err(|e| format!("--seeds: {e}"))?),
+            "--sweep" => a.sweep = Some(val("--sweep")?.parse().map_err(|e| format!("--sweep: {e}"))?),
             "--workers" => a.workers = val("--workers")?.parse().map_err(|e| format!("--workers: {e}"))?,
             "--replay" => a.replay = Some(PathBuf::from(val("--replay")?)),
             "--verif-dir" => a.verif_dir = PathBuf::from(val("--verif-dir")?),
@@ -857,6 +884,16 @@ fn main() {
             break;
         }
     }
+    // thorough: systematic single-fault-position sweep over sampled values
+    let sweep_values = a.sweep.unwrap_or(if a.tier == "thorough" { 4000 } else { 0 });
+    if failing.is_none() && sweep_values > 0 {
+        let b = run_batch_kind(a.seed, sweep_values, a.workers, &known, true);
+        let ff = b.first_fail.clone();
+        total.merge(b);
+        if let Some((idx, fails)) = ff {
+            failing = Some((a.seed, idx, fails));
+        }
+    }
     let wall = t0.elapsed().as_secs_f64();
     for (k, n) in &total.known_hits {
         println!("KNOWN-FINDING: property={PROPERTY} {} ({} occurrences)", known.findings[*k].what, n);
@@ -872,10 +909,10 @@ fn main() {
     if let Some((base, idx, fails)) = failing {
         let replay_dir = out_dir.join("replays");
         let _ = std::fs::create_dir_all(&replay_dir);
+        let mut seen = BTreeSet::new();
         for (leg, case, viols) in fails {
-            let mut seen = BTreeSet::new();
             for v in viols {
-                if !seen.insert(v.class.clone()) {
+                if !seen.insert((leg, v.class.clone())) {
                     continue;
                 }
                 nviol += 1;
